@@ -69,6 +69,9 @@ pub enum Op {
         ttl: u32,
         #[serde(with = "hexbytes")]
         rdata: Vec<u8>,
+        /// record class (1 IN, 3 CH, 4 HS, 254 NONE, 255 ANY); absent = IN
+        #[serde(default)]
+        class: u16,
     },
     /// native insert_rr(Question, RR::new_question(..))
     InsertQuestion { name_text: String, qtype: u16 },
